@@ -99,6 +99,11 @@ inductive VarsFit (reg : Reg) (vars : Option (List (String × PV))) : Ty → Lit
       reg.get? n = some (.input fs) →
       (∀ f, f ∈ fs → ∀ l, lookupLast f.name lkvs = some l → VarsFit reg vars f.type l) →
       VarsFit reg vars ty (.obj lkvs)
+  /-- a literal other than `$x` at a custom-scalar position (a list or object literal included: the scalar's own
+      `parse_literal` is handed the whole literal and the variables, and whatever it answers is `CustomOK`): nothing to check
+      (audit C07-F2: without this constructor `[1]` / `{a: 1}` at a JSON-like scalar made `arguments_sound` inapplicable) -/
+  | scalarPos {ty : Ty} {n : String} {l : Lit} : stripNN ty = .named n → reg.get? n = some .custom → (∀ x, l ≠ .var x) →
+      VarsFit reg vars ty l
 
 /-- What the validation rule VariablesInAllowedPosition has checked for the variables used inside literal `l` at a
     position of type `ty` (`hasDefault`: the position — argument or input field — declares a default): every usage `$x`
@@ -117,6 +122,9 @@ inductive VarsAllowed (reg : Reg) (defs : List VarDef) : Ty → Bool → Lit →
       reg.get? n = some (.input fs) →
       (∀ f, f ∈ fs → ∀ l, lookupLast f.name lkvs = some l → VarsAllowed reg defs f.type f.default.isSome l) →
       VarsAllowed reg defs ty hasDefault (.obj lkvs)
+  /-- a literal other than `$x` at a custom-scalar position: the rule checks nothing inside it (it has no type to check against) -/
+  | scalarPos {ty : Ty} {hasDefault : Bool} {n : String} {l : Lit} : stripNN ty = .named n → reg.get? n = some .custom →
+      (∀ x, l ≠ .var x) → VarsAllowed reg defs ty hasDefault l
 
 /-- the literal spelling of a JSON scalar, type-blind (what a custom scalar's `parse_literal` is handed) -/
 inductive LeafSpell : JV → Lit → Prop
